@@ -805,6 +805,9 @@ class Intrinsics:
                     v = z3.Select(ex.heap_field_array(attr), obj.t)
                     return ex.unbox(v) if kind == "any" else wrap(v, kind)
                 return wrap(field_fn(attr, kind)(obj.t), kind)
+            if attr in ("items", "keys", "values"):
+                self.use("Mapping.items()/keys()/values() of opaque data: an opaque iterable, empty iff the mapping is falsy")
+                return PyCallable(lambda ex_, a, k, _o=obj: Tagged("opaque-iter", _o), attr)
             if attr in ex.contract.obj_methods:
                 return PyCallable(lambda ex_, a, k, _o=obj, _m=attr: ex_.contract.obj_methods[_m](ex_, _o, a, k), f"{attr}")
             raise Unsupported(f"attribute .{attr} of opaque data")
